@@ -6,7 +6,7 @@ Observed per case: exit status, `panicked at` in stderr, wall time, every checkp
 line by line, which repositories received entries for which files. For valid payloads the Lean
 control-flow/routing model (`rt_handle`) predicts the entries per repository; a disagreement is a
 broken tie. All randomness derives from (seed, preset, layout, index)."""
-import base64, concurrent.futures, hashlib, json, os, random, shutil, subprocess, sys, time
+import base64, concurrent.futures, hashlib, json, os, random, shutil, subprocess, sys, tempfile, threading, time
 
 from vlib import common as C
 from vlib import e2e
@@ -14,7 +14,19 @@ from vlib import e2e
 DEFAULT_PRESETS = ["claude", "codex", "gemini", "continue-cli", "cursor", "github-copilot", "amp", "ai_tab",
                    "agent-v1", "droid", "opencode", "mock_ai"]
 LAYOUTS = ["single", "nested", "multi", "bare", "norepo"]
-HANG_S = 20.0
+HANG_S = 20.0          # CPU seconds
+WALL_LIMIT_S = 120.0   # wall-clock seconds (sleep / dead-lock)
+
+
+def _feed(proc, data):
+    try:
+        proc.stdin.write(data)
+    except Exception:
+        pass
+    try:
+        proc.stdin.close()
+    except Exception:
+        pass
 SINGLE_PATH = {"claude", "gemini", "continue-cli", "cursor", "droid", "opencode"}
 NO_PATHS = {"codex"}
 
@@ -390,16 +402,36 @@ def run_case(L, preset, case, res_sink):
     e = dict(env.env)
     e.update(case["env"])
     t0 = time.time()
+    # a hang is judged by the CPU time the command (and its reaped children) consumed, so that a
+    # loaded machine does not turn slow wall-clock runs into alarms; a wall-clock limit of
+    # WALL_LIMIT_S catches the command that sleeps or dead-locks instead of burning CPU
     try:
-        p = subprocess.run(argv, cwd=case["cwd"], env=e, input=stdin if stdin is not None else b"", capture_output=True, timeout=HANG_S * 3)
-        rc, err, hung = p.returncode, p.stderr.decode("utf-8", "replace"), False
-    except subprocess.TimeoutExpired as ex:
-        rc, err, hung = None, (ex.stderr or b"").decode("utf-8", "replace"), True
+        with tempfile.TemporaryFile() as ferr:
+            proc = subprocess.Popen(argv, cwd=case["cwd"], env=e, stdin=subprocess.PIPE, stdout=subprocess.DEVNULL, stderr=ferr)
+            feeder = threading.Thread(target=_feed, args=(proc, stdin if stdin is not None else b""), daemon=True)
+            feeder.start()
+            hung, cpu = False, 0.0
+            deadline = t0 + WALL_LIMIT_S
+            while True:
+                pid, status, ru = os.wait4(proc.pid, os.WNOHANG)
+                if pid:
+                    cpu = ru.ru_utime + ru.ru_stime
+                    rc = os.waitstatus_to_exitcode(status)
+                    proc.returncode = rc
+                    break
+                if time.time() > deadline:
+                    proc.kill(); os.wait4(proc.pid, 0); proc.returncode = -9
+                    rc, hung = None, True
+                    break
+                time.sleep(0.005 if time.time() - t0 < 1 else 0.05)
+            ferr.seek(0)
+            err = ferr.read()[-20000:].decode("utf-8", "replace")
     except (OSError, ValueError) as ex:   # E2BIG / embedded NUL in argv: not deliverable this way
         return {"skipped": str(ex)[:80]}
     wall = time.time() - t0
+    hung = hung or cpu > HANG_S
     entries, unreadable = L.observe()
-    return {"rc": rc, "hung": hung or wall > HANG_S, "wall": wall, "panic": "panicked at" in err,
+    return {"rc": rc, "hung": hung, "wall": wall, "cpu": round(cpu, 2), "panic": "panicked at" in err,
             "stderr_tail": "\n".join(l for l in err.split("\n") if "BENCHMARK" not in l)[-600:],
             "entries": {k: sorted(v) for k, v in entries.items()}, "unreadable": unreadable}
 
@@ -411,7 +443,7 @@ def witness_of(L, preset, case, obs):
             "payload_head": pl[:1500].decode("utf-8", "replace").replace(L.env.root, "<ROOT>"), "payload_len": len(pl),
             "payload_b64": base64.b64encode(pl).decode() if len(pl) <= 6000 else None,
             "mock_paths": [p.replace(L.env.root, "<ROOT>") for p in case.get("paths", [])],
-            "observed": {"rc": obs.get("rc"), "hung": obs.get("hung"), "panic": obs.get("panic"), "wall_s": round(obs.get("wall", 0), 2),
+            "observed": {"rc": obs.get("rc"), "hung": obs.get("hung"), "panic": obs.get("panic"), "wall_s": round(obs.get("wall", 0), 2), "cpu_s": obs.get("cpu"),
                          "entries": {k.replace(L.env.root, "<ROOT>"): v for k, v in obs.get("entries", {}).items()},
                          "stderr_tail": obs.get("stderr_tail", "").replace(L.env.root, "<ROOT>")}}
 
@@ -671,7 +703,7 @@ def fuzz(res, seed, presets, per, tier, corpus_file=None, label="e2e"):
     preds = C.run_driver([results[k]["req"] for k in idx]) if idx else []
     pred_of = dict(zip(idx, preds))
     stats = {"cases": 0, "skipped": 0, "valid": 0, "with_entries": 0, "model_compared": 0, "model_disagreements": 0,
-             "max_wall_s": 0.0, "exit_sites": {}}
+             "max_wall_s": 0.0, "max_cpu_s": 0.0, "exit_sites": {}}
     disagreements = []
     for k, r in enumerate(results):
         if r.get("skipped"):
@@ -682,9 +714,10 @@ def fuzz(res, seed, presets, per, tier, corpus_file=None, label="e2e"):
         res.tag(["e2e:" + t for t in tags if not t.startswith("mut=")])
         preset = next(t[7:] for t in tags if t.startswith("preset:"))
         stats["max_wall_s"] = max(stats["max_wall_s"], round(obs["wall"], 2))
+        stats["max_cpu_s"] = max(stats["max_cpu_s"], obs.get("cpu", 0.0))
         w = r["witness"]
         if obs["hung"]:
-            res.oracle_failure(f"hang:{preset}", w, f"checkpoint {preset} did not finish within {HANG_S:.0f} s")
+            res.oracle_failure(f"hang:{preset}", w, f"checkpoint {preset} used more than {HANG_S:.0f} s of CPU or did not finish within {WALL_LIMIT_S:.0f} s")
         elif obs["rc"] != 0:
             res.oracle_failure(f"exit-nonzero:{preset}", w, f"checkpoint {preset} exited with status {obs['rc']}")
         if obs["panic"]:
